@@ -54,44 +54,50 @@ var CatalogFiles = Files{
 	"theme.yml":  "site: ThemeSite\ntcolor: blue\n",
 	"data/a.yml": "site: DataSite\nmenu:\n  - home\n  - about\n",
 
-	"p_text.vuego":   `<h1>{{ title }}</h1><p>{{ canary }} {{ user.name }} {{ n }} {{ missing }}</p>`,
-	"p_if.vuego":     `<div v-if="hide">A</div><div v-else-if="n == 3">B{{ canary }}</div><div v-else>C</div><p v-if="show">S</p>`,
-	"p_for.vuego":    `<ul><li v-for="(i, it) in items" :data-i="i">{{ it }}{{ canary }}</li><li v-else>none</li></ul>`,
-	"p_formap.vuego": `<ul><li v-for="v in m">{{ v }}</li></ul><p>{{ canary }}</p>`,
-	"p_nested.vuego": `<div v-for="row in rows"><span v-for="c in row">{{ c }}</span></div><p>{{ canary }}</p>`,
-	"p_attrs.vuego":  `<a :href="url" :title="title" :data-c="canary" :id="color" :class="color" class="base" rel="x">L</a>`,
-	"p_style.vuego":  `<div style="color: blue; margin: 0; padding: 1px" :style="{color: color, fontSize: '12px', lineHeight: 1}">{{ canary }}</div>`,
-	"p_show.vuego":   `<div style="color: blue; margin: 0; padding: 1px; top: 0" v-show="hide">{{ canary }}</div><p v-show="show" style="a: b; c: d">v</p>`,
-	"p_class.vuego":  `<div class="s" :class="{on: show, off: hide, 'x-y': n}">{{ canary }}</div><p :style="{'--c': color, backgroundColor: color}">o</p>`,
-	"p_incl.vuego":   `<section><template include="c_card.vuego" :heading="title" sub="st{{ n }}" :c="canary"></template><template include="c_card.vuego" heading="second" :c="canary"></template></section>`,
-	"c_card.vuego":   `<template :required="heading"><div class="card"><h2>{{ heading }}</h2><p>{{ sub }}|{{ c }}</p></div></template>`,
-	"p_slots.vuego":  `<template include="c_modal.vuego"><template #header>H{{ canary }}</template><b>body {{ title }}</b><template v-slot:footer><i :title="color">F</i></template></template>`,
-	"c_modal.vuego":  `<div class="modal"><header><slot name="header">dh</slot></header><main><slot>db</slot></main><footer><slot name="footer">df</slot></footer></div>`,
-	"p_scoped.vuego": `<template include="c_list.vuego" :list="items"><template v-slot="{ item, index }">{{ index }}:{{ item }}{{ canary }}</template></template>`,
-	"c_list.vuego":   `<ul><li v-for="(i, it) in list"><slot :item="it" :index="i">fb</slot></li></ul>`,
-	"p_layout.vuego": "---\nlayout: cat_inner\npagevar: PV\n---\n<article>{{ canary }} {{ pagevar }}</article>",
-	"layouts/cat_inner.vuego": "---\nlayout: cat_outer\n---\n<div class=\"inner\">{{ pagevar }}<section v-html=\"content\"></section></div>",
-	"layouts/cat_outer.vuego": "<html><head><title>{{ site }}</title></head><body><main v-html=\"content\"></main></body></html>",
-	"p_filters.vuego": `<p>{{ title | upper }} {{ user.name | lower | title }} {{ missing | default("dflt") }} {{ items | len }} {{ canary | upper | lower }}</p><pre>{{ m | json }}</pre>`,
-	"p_fm.vuego":      "---\ntitle: FromFM\nextra: [1, 2]\nlayout: \"\"\n---\n<h1>{{ title }}</h1><p>{{ extra[1] }} {{ canary }}</p>",
-	"p_once.vuego":    `<div v-for="it in items"><b v-once>once{{ canary }}</b><i>{{ it }}</i></div><u v-once>other</u>`,
-	"p_html.vuego":    `<div v-html="html"></div><p v-text="title"></p><span v-text="canary"></span>`,
-	"p_tmpl.vuego":    `<template :cnt="0"></template><div v-for="it in items"><template :cnt="cnt + 1"></template><i>{{ cnt }}</i></div><p>{{ canary }}</p>`,
-	"p_pre.vuego":     `<div v-pre><b :title="x">{{ raw }}</b></div><p [v-if]="keep" [title]="lit">{{ canary }}</p>`,
-	"p_expr.vuego":    `<p>{{ n > 2 ? "big" : "small" }} {{ show && !hide }} {{ n + 1 }} {{ user.name == "Ann" }}</p><i :title="n > 2 ? canary : ''">e</i>`,
-	"p_struct.vuego":  `<p>{{ st.name }} {{ st.n }} {{ st.Name }}</p><b>{{ canary }}</b>`,
-	"p_config.vuego":  `<p>{{ site }} {{ tcolor }} {{ menu[1] }} {{ canary }}</p>`,
-	"p_doc.vuego":     "<!DOCTYPE html><html><head><title>{{ title }}</title><script>var x = \"{{ canary }}\" < 1;</script></head><body><p>{{ canary }}</p><br><img src=\"a.png\"></body></html>",
-	"p_short.vuego":   `<cat-badge kind="ok" :text="canary"></cat-badge><cat-badge kind="warn" text="w"></cat-badge>`,
+	"p_text.vuego":              `<h1>{{ title }}</h1><p>{{ canary }} {{ user.name }} {{ n }} {{ missing }}</p>`,
+	"p_if.vuego":                `<div v-if="hide">A</div><div v-else-if="n == 3">B{{ canary }}</div><div v-else>C</div><p v-if="show">S</p>`,
+	"p_for.vuego":               `<ul><li v-for="(i, it) in items" :data-i="i">{{ it }}{{ canary }}</li><li v-else>none</li></ul>`,
+	"p_formap.vuego":            `<ul><li v-for="v in m">{{ v }}</li></ul><p>{{ canary }}</p>`,
+	"p_nested.vuego":            `<div v-for="row in rows"><span v-for="c in row">{{ c }}</span></div><p>{{ canary }}</p>`,
+	"p_attrs.vuego":             `<a :href="url" :title="title" :data-c="canary" :id="color" :class="color" class="base" rel="x">L</a>`,
+	"p_style.vuego":             `<div style="color: blue; margin: 0; padding: 1px" :style="{color: color, fontSize: '12px', lineHeight: 1}">{{ canary }}</div>`,
+	"p_show.vuego":              `<div style="color: blue; margin: 0; padding: 1px; top: 0" v-show="hide">{{ canary }}</div><p v-show="show" style="a: b; c: d">v</p>`,
+	"p_class.vuego":             `<div class="s" :class="{on: show, off: hide, 'x-y': n}">{{ canary }}</div><p :style="{'--c': color, backgroundColor: color}">o</p>`,
+	"p_incl.vuego":              `<section><template include="c_card.vuego" :heading="title" sub="st{{ n }}" :c="canary"></template><template include="c_card.vuego" heading="second" :c="canary"></template></section>`,
+	"c_card.vuego":              `<template :required="heading"><div class="card"><h2>{{ heading }}</h2><p>{{ sub }}|{{ c }}</p></div></template>`,
+	"p_slots.vuego":             `<template include="c_modal.vuego"><template #header>H{{ canary }}</template><b>body {{ title }}</b><template v-slot:footer><i :title="color">F</i></template></template>`,
+	"c_modal.vuego":             `<div class="modal"><header><slot name="header">dh</slot></header><main><slot>db</slot></main><footer><slot name="footer">df</slot></footer></div>`,
+	"p_scoped.vuego":            `<template include="c_list.vuego" :list="items"><template v-slot="{ item, index }">{{ index }}:{{ item }}{{ canary }}</template></template>`,
+	"c_list.vuego":              `<ul><li v-for="(i, it) in list"><slot :item="it" :index="i">fb</slot></li></ul>`,
+	"p_layout.vuego":            "---\nlayout: cat_inner\npagevar: PV\n---\n<article>{{ canary }} {{ pagevar }}</article>",
+	"layouts/cat_inner.vuego":   "---\nlayout: cat_outer\n---\n<div class=\"inner\">{{ pagevar }}<section v-html=\"content\"></section></div>",
+	"layouts/cat_outer.vuego":   "<html><head><title>{{ site }}</title></head><body><main v-html=\"content\"></main></body></html>",
+	"p_filters.vuego":           `<p>{{ title | upper }} {{ user.name | lower | title }} {{ missing | default("dflt") }} {{ items | len }} {{ canary | upper | lower }}</p><pre>{{ m | json }}</pre>`,
+	"p_fm.vuego":                "---\ntitle: FromFM\nextra: [1, 2]\nlayout: \"\"\n---\n<h1>{{ title }}</h1><p>{{ extra[1] }} {{ canary }}</p>",
+	"p_once.vuego":              `<div v-for="it in items"><b v-once>once{{ canary }}</b><i>{{ it }}</i></div><u v-once>other</u>`,
+	"p_html.vuego":              `<div v-html="html"></div><p v-text="title"></p><span v-text="canary"></span>`,
+	"p_tmpl.vuego":              `<template :cnt="0"></template><div v-for="it in items"><template :cnt="cnt + 1"></template><i>{{ cnt }}</i></div><p>{{ canary }}</p>`,
+	"p_pre.vuego":               `<div v-pre><b :title="x">{{ raw }}</b></div><p [v-if]="keep" [title]="lit">{{ canary }}</p>`,
+	"p_expr.vuego":              `<p>{{ n > 2 ? "big" : "small" }} {{ show && !hide }} {{ n + 1 }} {{ user.name == "Ann" }}</p><i :title="n > 2 ? canary : ''">e</i>`,
+	"p_struct.vuego":            `<p>{{ st.name }} {{ st.n }} {{ st.Name }}</p><b>{{ canary }}</b>`,
+	"p_config.vuego":            `<p>{{ site }} {{ tcolor }} {{ menu[1] }} {{ canary }}</p>`,
+	"p_doc.vuego":               "<!DOCTYPE html><html><head><title>{{ title }}</title><script>var x = \"{{ canary }}\" < 1;</script></head><body><p>{{ canary }}</p><br><img src=\"a.png\"></body></html>",
+	"p_short.vuego":             `<cat-badge kind="ok" :text="canary"></cat-badge><cat-badge kind="warn" text="w"></cat-badge>`,
 	"components/CatBadge.vuego": `<template :require="kind"><span class="badge badge-{{ kind }}">{{ text }}</span></template>`,
-	"p_incfor.vuego":  `<div v-for="o in objs"><template include="c_card.vuego" :heading="o.name" :c="canary"></template></div>`,
-	"p_badfilter.vuego": `<p>ok {{ canary }}</p><p>{{ title | nosuchfilter }}</p>`,
-	"p_badincl.vuego":   `<p>{{ canary }}</p><template include="does_not_exist.vuego"></template>`,
-	"p_badreq.vuego":    `<p>{{ canary }}</p><template include="c_card.vuego" sub="x"></template>`,
-	"p_badlate.vuego":   `<ul><li v-for="it in items">{{ it }}{{ canary }}</li></ul><div><div><p>{{ n | int | nosuch2 }}</p></div></div>`,
-	"p_badlayout.vuego": "---\nlayout: cat_missing\n---\n<p>{{ canary }}</p>",
-	"p_badinlayout.vuego": "---\nlayout: cat_broken\n---\n<p>{{ canary }}</p>",
-	"layouts/cat_broken.vuego": "<div><section v-html=\"content\"></section>{{ canary | nosuch3 }}</div>",
+	"p_incfor.vuego":            `<div v-for="o in objs"><template include="c_card.vuego" :heading="o.name" :c="canary"></template></div>`,
+	"p_wrap.vuego":              `<section><template include="c_wrap.vuego" :label="title" :cn="canary"></template></section>`,
+	"c_wrap.vuego":              `<template include="c_card.vuego" :heading="label" :c="cn" sub="w"></template>`,
+	"p_inconce.vuego":           `<template include="c_once.vuego" :c="canary"></template><template include="c_once.vuego" :c="canary"></template>`,
+	"c_once.vuego":              `<div class="o"><b v-once>once {{ c }}</b><i>{{ c }}</i></div>`,
+	"p_badmid.vuego":            `<p>Hello {{ canary }}, you owe {{ title | nosuchmid }}</p>`,
+	"p_badattr.vuego":           `<p>{{ canary }}</p><i title="pre {{ canary }} {{ n | nosuchmid2 }}">x</i>`,
+	"p_badfilter.vuego":         `<p>ok {{ canary }}</p><p>{{ title | nosuchfilter }}</p>`,
+	"p_badincl.vuego":           `<p>{{ canary }}</p><template include="does_not_exist.vuego"></template>`,
+	"p_badreq.vuego":            `<p>{{ canary }}</p><template include="c_card.vuego" sub="x"></template>`,
+	"p_badlate.vuego":           `<ul><li v-for="it in items">{{ it }}{{ canary }}</li></ul><div><div><p>{{ n | int | nosuch2 }}</p></div></div>`,
+	"p_badlayout.vuego":         "---\nlayout: cat_missing\n---\n<p>{{ canary }}</p>",
+	"p_badinlayout.vuego":       "---\nlayout: cat_broken\n---\n<p>{{ canary }}</p>",
+	"layouts/cat_broken.vuego":  "<div><section v-html=\"content\"></section>{{ canary | nosuch3 }}</div>",
 }
 
 var Catalog = func() []Program {
@@ -122,6 +128,10 @@ var Catalog = func() []Program {
 		{Name: "doc", Page: "p_doc.vuego", Data: d},
 		{Name: "short", Page: "p_short.vuego", Data: d},
 		{Name: "incfor", Page: "p_incfor.vuego", Data: d},
+		{Name: "wrap", Page: "p_wrap.vuego", Data: d},
+		{Name: "inconce", Page: "p_inconce.vuego", Data: d},
+		{Name: "badmid", Page: "p_badmid.vuego", Data: d, Fails: true},
+		{Name: "badattr", Page: "p_badattr.vuego", Data: d, Fails: true},
 		{Name: "badfilter", Page: "p_badfilter.vuego", Data: d, Fails: true},
 		{Name: "badincl", Page: "p_badincl.vuego", Data: d, Fails: true},
 		{Name: "badreq", Page: "p_badreq.vuego", Data: d, Fails: true},
